@@ -422,6 +422,10 @@ class MinFlowDecomp(pathmodel.AbstractPathModelDAG): # Note that we inherit from
         # carries a flow value, neither the numbers to generate nor the total source flow are meaningful.
         if any(self.flow_attr in self.G.edges[e] for e in self.edges_to_ignore if e in self.G.edges):
             return None
+        # Likewise, the total source flow is not known if some edge has no flow value (a path can start on it), as
+        # the edges between the expanded nodes in node-weighted mode
+        if any(self.flow_attr not in self.G.edges[e] for e in self.G.edges):
+            return None
 
         min_gen_set_start_time = time.perf_counter()
         all_weights = list(set({self.G.edges[e][self.flow_attr] for e in self.G.edges() if self.flow_attr in self.G.edges[e]}))
